@@ -427,7 +427,17 @@ def run(ck: core.Check):
             cur = best.get(key)
             if cur is None or len(json.dumps(spec)) < len(json.dumps(cur[1])):
                 best[key] = (what, spec)
-    for key, (what, spec) in best.items():
+    for key, (what, spec) in list(best.items())[:6]:
+        def same_failure(s, key=key):
+            return any(k == key for k, _ in judge(s, random.Random(0))["fails"])
+
+        try:  # shrink the witness (failure path only)
+            small = L.shrink(spec, same_failure, budget=100)
+            fails = [w for k, w in judge(small, random.Random(0))["fails"] if k == key]
+            if fails:
+                spec, what = small, fails[0]
+        except Exception:  # noqa: BLE001
+            pass
         ck.failure(key, what, {"spec": spec})
 
     if drv is not None:
